@@ -82,7 +82,9 @@ func runWorker(bin string, timeout time.Duration, args ...string) workerOut {
 	ctx, cancel := context.WithTimeout(context.Background(), timeout)
 	defer cancel()
 	cmd := exec.CommandContext(ctx, bin, args...)
-	cmd.Env = append(os.Environ(), gorace)
+	// The simulation runs one task at a time: two OS threads are plenty, and
+	// sixteen worker processes must not each start sixteen GC workers.
+	cmd.Env = append(os.Environ(), gorace, "GOMAXPROCS="+fmt.Sprint(envInt("VERIF_WORKER_GOMAXPROCS", 2)))
 	var stdout, stderr bytes.Buffer
 	cmd.Stdout, cmd.Stderr = &stdout, &stderr
 	err := cmd.Run()
@@ -334,7 +336,10 @@ func check(prop, tier string, seed uint64) int {
 	stop := false
 	sampleGiven := map[int]bool{}
 	isolated := map[int]bool{}
-	var quickDeadline time.Time // bounds the isolated re-search
+	var quickDeadline time.Time // bounds the quick tier on slow trees, and the isolated re-search
+	if tier == "quick" {
+		quickDeadline = t0.Add(time.Duration(envInt("VERIF_QUICK_MAX_S", 150)) * time.Second)
+	}
 
 	takeChunk := func() (int, uint64, uint64, bool) {
 		mu.Lock()
